@@ -540,6 +540,49 @@ func c13ClientRound(g *gen.G, sc dyn.Schema, dir string, w *emit.Writer, goFail 
 		c13MutateAll(g, db, T, lp.Elem().Index(i).Interface())
 	}
 	check("List")
+	// List into a slice of structs: the elements are values, their slices, maps and pointers must still be the caller's own
+	lv := reflect.New(reflect.SliceOf(reflect.TypeOf(db.New("T")).Elem()))
+	if err := cl.List(ctx, lv.Interface()); err != nil {
+		goFail("List(values)", "List into a slice of values: "+err.Error())
+	}
+	for i := 0; i < lv.Elem().Len(); i++ {
+		c13MutateAll(g, db, T, lv.Elem().Index(i).Addr().Interface())
+	}
+	check("List into a slice of values")
+	// conditional lists, into both kinds of slice
+	mt := reflect.TypeOf(db.New("T"))
+	pred := reflect.MakeFunc(reflect.FuncOf([]reflect.Type{mt}, []reflect.Type{reflect.TypeOf(true)}, false),
+		func(args []reflect.Value) []reflect.Value { return []reflect.Value{reflect.ValueOf(true)} })
+	condModel := db.New("T")
+	conds := []model.Condition{{Field: db.FieldPtr(condModel, "T", "n"), Function: ovsdb.ConditionEqual, Value: 77}}
+	for name, capi := range map[string]client.ConditionalAPI{
+		"WhereCache.List": cl.WhereCache(pred.Interface()),
+		"WhereAll.List":   cl.WhereAll(condModel, conds...),
+		"WhereAny.List":   cl.WhereAny(condModel, conds...),
+	} {
+		for _, byValue := range []bool{false, true} {
+			et := mt
+			if byValue {
+				et = mt.Elem()
+			}
+			lp := reflect.New(reflect.SliceOf(et))
+			if err := capi.List(ctx, lp.Interface()); err != nil {
+				goFail(name, name+": "+err.Error())
+				continue
+			}
+			if lp.Elem().Len() != len(want) {
+				goFail(name, fmt.Sprintf("%s reports %d of %d rows", name, lp.Elem().Len(), len(want)))
+			}
+			for i := 0; i < lp.Elem().Len(); i++ {
+				e := lp.Elem().Index(i)
+				if byValue {
+					e = e.Addr()
+				}
+				c13MutateAll(g, db, T, e.Interface())
+			}
+			check(fmt.Sprintf("%s (by value: %v)", name, byValue))
+		}
+	}
 	// Where(model).List and WhereAll
 	for u := range want {
 		lp := reflect.New(reflect.SliceOf(reflect.TypeOf(db.New("T"))))
